@@ -484,20 +484,54 @@ func checkStringForm(p *Prog, c *Check) {
 			}
 		}
 	}
+	// verdict form: helper(verdict, v string) string that tests its first parameter against nil; String then
+	// passes receiver.WellFormed() for it
+	verdictForm := false
 	if helper == nil {
-		c.Bad("R17.2", "suffix helper", "-", "no helper that calls WellFormed on its first argument and returns a string")
+		for _, typ := range []string{"Publish", "Subscribe"} {
+			fn := p.Method(typ, "String")
+			wfm := p.Method(typ, "WellFormed")
+			if fn == nil || wfm == nil {
+				continue
+			}
+			for _, b := range fn.Blocks {
+				ret, isR := terminator(b).(*ssa.Return)
+				if !isR || len(ret.Results) != 1 {
+					continue
+				}
+				call, isCall := ret.Results[0].(*ssa.Call)
+				if !isCall || len(call.Call.Args) != 2 {
+					continue
+				}
+				h := call.Call.StaticCallee()
+				if h == nil || h.Blocks == nil || h.Signature.Recv() != nil || len(h.Params) != 2 {
+					continue
+				}
+				if a0, ok := stripIface(call.Call.Args[0]).(*ssa.Call); ok && a0.Call.StaticCallee() == wfm {
+					if nn, _ := errEdges(h.Params[0]); len(nn) > 0 {
+						helper, verdictForm = h, true
+					}
+				}
+			}
+		}
+	}
+	if helper == nil {
+		c.Bad("R17.2", "suffix helper", "-", "no helper that calls WellFormed on its first argument (or is handed its verdict) and returns a string")
 		return
 	}
 	c.Fn(qname(helper))
 	hc := qname(helper)
 	// shape of the helper
-	var wf *ssa.Call
+	var wf ssa.Value
 	for _, b := range helper.Blocks {
 		for _, ins := range b.Instrs {
 			if call, ok := ins.(*ssa.Call); ok && call.Call.IsInvoke() && call.Call.Method.Name() == "WellFormed" {
 				wf = call
 			}
 		}
+	}
+	if verdictForm {
+		wf = helper.Params[0]
 	}
 	nonNil, isNil := errEdges(wf)
 	okH := len(nonNil) > 0
@@ -577,6 +611,14 @@ func checkStringForm(p *Prog, c *Check) {
 			if !isCall || call.Call.StaticCallee() != helper {
 				ok = false
 				c.Bad("R17.2", cons, posOf(p, ret), "String does not return through the suffixing helper: the \"malformed!\" mark can be missing")
+				continue
+			}
+			if verdictForm {
+				a0, isC := stripIface(call.Call.Args[0]).(*ssa.Call)
+				if !isC || a0.Call.StaticCallee() != p.Method(typ, "WellFormed") || len(a0.Call.Args) == 0 || !isRecvOf(p, fn, a0.Call.Args[0]) {
+					ok = false
+					c.Bad("R17.2", cons, posOf(p, ret), "the helper is not handed the receiver's own WellFormed() verdict")
+				}
 				continue
 			}
 			mi, isMI := call.Call.Args[0].(*ssa.MakeInterface)
